@@ -20,6 +20,20 @@ use std::time::Duration;
 
 const OOD: u128 = 96;
 const T: Duration = Duration::from_secs(10);
+/// Read timeouts seen by this process.  A correct server never makes a read time out; after two of them (the run is
+/// a failure already) the remaining exchanges wait 2 s instead of 10 s so that a broken framing is reported in minutes.
+static TIMEOUTS: std::sync::atomic::AtomicU32 = std::sync::atomic::AtomicU32::new(0);
+fn read_timeout() -> Duration {
+    if TIMEOUTS.load(std::sync::atomic::Ordering::Relaxed) >= 2 {
+        Duration::from_secs(2)
+    } else {
+        T
+    }
+}
+fn timed_out(what: &'static str) -> std::io::Error {
+    TIMEOUTS.fetch_add(1, std::sync::atomic::Ordering::Relaxed);
+    ioerr(std::io::ErrorKind::TimedOut, what)
+}
 const SENTINEL: &[u8] = b"SENTINEL-OK";
 
 fn rt() -> &'static tokio::runtime::Runtime {
@@ -155,10 +169,10 @@ impl Client {
                 head_end = p + 4;
                 break;
             }
-            let n = match tokio::time::timeout(T, s.read(&mut tmp)).await {
+            let n = match tokio::time::timeout(read_timeout(), s.read(&mut tmp)).await {
                 Ok(Ok(n)) => n,
                 Ok(Err(e)) => return Err(e),
-                Err(_) => return Err(ioerr(std::io::ErrorKind::TimedOut, "no response head")),
+                Err(_) => return Err(timed_out("no response head")),
             };
             if n == 0 {
                 self.stream = None;
@@ -207,10 +221,10 @@ impl Client {
         }
         let want = if head { 0 } else { r.content_length.ok_or_else(|| ioerr(std::io::ErrorKind::InvalidData, "no content-length"))? as usize };
         while buf.len() < head_end + want {
-            let n = match tokio::time::timeout(T, s.read(&mut tmp)).await {
+            let n = match tokio::time::timeout(read_timeout(), s.read(&mut tmp)).await {
                 Ok(Ok(n)) => n,
                 Ok(Err(e)) => return Err(e),
-                Err(_) => return Err(ioerr(std::io::ErrorKind::TimedOut, "body shorter than content-length")),
+                Err(_) => return Err(timed_out("body shorter than content-length")),
             };
             if n == 0 {
                 self.stream = None;
